@@ -25,6 +25,7 @@ _VERIF_ERRORS = (
     'possible division by zero', 'decreases not satisfied', 'possible bit shift underflow/overflow',
     'unreachable', 'cannot show', 'loop ensures not satisfied', 'ensures not satisfied',
     'recommendation not met', 'constructed value may fail to meet its declared type invariant',
+    'unable to prove', 'could not prove', 'failed to satisfy', 'possible integer overflow',
 )
 _LIMIT_ERRORS = ('Resource limit (rlimit) exceeded', 'rlimit')
 
